@@ -102,13 +102,21 @@ from ml_pipeline_engine.node import ProcessorBase
 from ml_pipeline_engine.node.enums import NodeTag
 state, mode, variant = sys.argv[1], sys.argv[2], sys.argv[3]
 CALLS = []
-class A(ProcessorBase):
-    name = 'a'
-    async def process(self, x: int):
-        CALLS.append('a'); return x
+if mode.startswith('mixed'):
+    # a thread-pool node AND a process-pool node in one pipeline: both pools are needed, one of them is missing
+    class A(ProcessorBase):
+        name = 'a'
+        tags = (NodeTag.process,) if mode == 'mixed_thread_missing' else ()
+        def process(self, x: int):
+            CALLS.append('a'); return x
+else:
+    class A(ProcessorBase):
+        name = 'a'
+        async def process(self, x: int):
+            CALLS.append('a'); return x
 class B(ProcessorBase):
     name = 'b'
-    tags = (NodeTag.process,) if mode == 'process' else ()
+    tags = (NodeTag.process,) if mode in ('process', 'mixed_process_missing') else ()
     use_default = variant == 'default'
     attempts = 2 if variant == 'retry' else None
     def process(self, a: Input(A)):
@@ -122,7 +130,7 @@ class C(ProcessorBase):
 class _M:
     def shutdown(self): pass
 other_t = ThreadPoolExecutor(max_workers=1); other_p = ProcessPoolExecutor(max_workers=1)
-if mode == 'thread':
+if mode in ('thread', 'mixed_thread_missing'):
     process_pool_registry.register_manager(_M()); process_pool_registry.register_pool_executor(other_p)
     if state == 'shutdown':
         threads_pool_registry.register_pool_executor(other_t); other_t.shutdown()
@@ -136,7 +144,7 @@ async def go():
     chart = PipelineChart('m', build_dag(A, C))
     if state == 'shutdown_after_run':
         # the pools are alive for a first run of this very chart, then the needed one is shut down: the next run must fail fast too
-        if mode == 'thread':
+        if mode in ('thread', 'mixed_thread_missing'):
             threads_pool_registry.register_pool_executor(other_t)
         else:
             process_pool_registry.register_manager(_M()); process_pool_registry.register_pool_executor(other_p)
@@ -144,7 +152,7 @@ async def go():
         if r0.error is not None:
             return dict(harness_error='first run failed: %r' % r0.error)
         del CALLS[:]
-        (other_t if mode == 'thread' else other_p).shutdown()
+        (other_t if mode in ('thread', 'mixed_thread_missing') else other_p).shutdown()
     try:
         r = await asyncio.wait_for(chart.run(input_kwargs=dict(x=1)), timeout=20)
         return dict(value=repr(r.value), error=None if r.error is None else type(r.error).__name__, calls=CALLS)
@@ -244,7 +252,9 @@ def main():
     # ---- (c) registry states (only one worker does it)
     if seed % 1000 == 0:
         for mode, state in [('thread', 'never'), ('thread', 'shutdown'), ('process', 'never'), ('process', 'shutdown'), ('process', 'no_manager'),
-                            ('thread', 'shutdown_after_run'), ('process', 'shutdown_after_run')]:
+                            ('thread', 'shutdown_after_run'), ('process', 'shutdown_after_run'),
+                            ('mixed_process_missing', 'never'), ('mixed_process_missing', 'shutdown'), ('mixed_process_missing', 'shutdown_after_run'),
+                            ('mixed_thread_missing', 'never'), ('mixed_thread_missing', 'shutdown')]:
             for variant in ('plain', 'default', 'retry'):
                 try:
                     p = subprocess.run([sys.executable, '-c', REGISTRY_SCRIPT, state, mode, variant], env=env, stdout=subprocess.PIPE, stderr=subprocess.PIPE,
@@ -273,7 +283,7 @@ def main():
                           rule='(a) programs of the proved fragments grown by harness/gen.py, each run under 3 random assignments of the five execution modes '
                                '(coroutine gated / coroutine immediate / non_async inline / thread pool / process pool) and random schedules on the virtual loop, '
                                'each outcome against the reference semantics and the extracted model; (b) a sample of such programs on a real asyncio loop with a '
-                               'real ThreadPoolExecutor and a real fork ProcessPoolExecutor against the reference; (c) 21 registry states x node variants (incl. a pool shut down between two runs of one chart) in '
+                               'real ThreadPoolExecutor and a real fork ProcessPoolExecutor against the reference; (c) 36 registry states x node variants (incl. pipelines that need both pools with only one of them alive) (incl. a pool shut down between two runs of one chart) in '
                                'fresh subprocesses (pool never registered / shut down / no manager; plain, use_default, retry); non-trivial = every (a) case; '
                                'distinct = distinct (program with modes, action list)')))
 
